@@ -117,25 +117,41 @@ type kvDMap struct {
 
 func (d *kvDMap) Name() string { return "verif" }
 
-func (d *kvDMap) Put(_ context.Context, key string, value any, options ...olric.PutOption) error {
+// errPutTimeout / errPutTimeoutApplied are returned by a failPut script to make the write run into the caller's
+// deadline: the put blocks until the context is done and returns its error, without (errPutTimeout) or after
+// (errPutTimeoutApplied: the acknowledgement is lost) having been applied.
+var (
+	errPutTimeout        = fmt.Errorf("verif: scripted put timeout")
+	errPutTimeoutApplied = fmt.Errorf("verif: scripted put timeout after the write was applied")
+)
+
+func (d *kvDMap) Put(ctx context.Context, key string, value any, options ...olric.PutOption) error {
 	val, ok := value.([]byte)
 	if !ok {
 		return fmt.Errorf("verif dmap: unsupported value type %T", value)
 	}
 	nx, ex := putOptions(options)
+	lateAck := false
 	if d.failPut != nil {
-		if err := d.failPut(d.node, key, nx); err != nil {
+		switch err := d.failPut(d.node, key, nx); err {
+		case nil:
+		case errPutTimeout:
+			<-ctx.Done()
+			return ctx.Err()
+		case errPutTimeoutApplied:
+			lateAck = true
+		default:
 			return err
 		}
 	}
 	d.st.mu.Lock()
-	defer d.st.mu.Unlock()
 	d.st.expire(key)
 	if nx {
 		if _, found := d.st.m[key]; found {
 			if d.onPut != nil {
 				d.onPut(d.node, key, nx, 0)
 			}
+			d.st.mu.Unlock()
 			return olric.ErrKeyFound
 		}
 	}
@@ -146,6 +162,11 @@ func (d *kvDMap) Put(_ context.Context, key string, value any, options ...olric.
 	}
 	if d.onPut != nil {
 		d.onPut(d.node, key, nx, 1)
+	}
+	d.st.mu.Unlock()
+	if lateAck {
+		<-ctx.Done()
+		return ctx.Err()
 	}
 	return nil
 }
